@@ -48,6 +48,8 @@ type metricSchemaStore struct {
 	immutable *imap.IntMap[*metric.Schema]
 
 	cache *expirable.LRU[metric.ID, *metric.Schema]
+	// completed flushes, a schema which was read before a flush completed may be out of date
+	flushes int64
 
 	lock sync.RWMutex
 }
@@ -86,6 +88,7 @@ func (s *metricSchemaStore) GetSchema(id metric.ID) (schema *metric.Schema, err 
 
 // genFieldID generates field id if field not exist.
 func (s *metricSchemaStore) genFieldID(id metric.ID, f field.Meta, limits *models.Limits) (fID field.ID, err error) {
+	flushes := s.completedFlushes()
 	schema, err := s.GetSchema(id)
 	if err != nil {
 		return 0, err
@@ -95,7 +98,10 @@ func (s *metricSchemaStore) genFieldID(id metric.ID, f field.Meta, limits *model
 	defer s.lock.Unlock()
 
 	// the schema was read before the lock was taken, another writer may have put its one into mutable store meanwhile
-	schema = s.mutableSchema(id, schema)
+	schema, err = s.mutableSchema(id, schema, flushes)
+	if err != nil {
+		return 0, err
+	}
 
 	fm, ok := schema.Fields.Find(f.Name)
 	if ok {
@@ -113,16 +119,25 @@ func (s *metricSchemaStore) genFieldID(id metric.ID, f field.Meta, limits *model
 }
 
 // mutableSchema returns the schema of the metric under mutable store, all writers must modify that one;
-// the given schema(nil: create new schema) is put into mutable store only if it has none for the metric.
+// the given schema(nil: create new schema), which was read when the given number of flushes had completed,
+// is put into mutable store only if memory store has none for the metric.
 // NOTE: must be invoked holding the write lock.
-func (s *metricSchemaStore) mutableSchema(id metric.ID, schema *metric.Schema) *metric.Schema {
+func (s *metricSchemaStore) mutableSchema(id metric.ID, schema *metric.Schema, flushes int64) (*metric.Schema, error) {
 	if stored, ok := s.mutable.Get(uint32(id)); ok {
-		return stored
+		return stored, nil
 	}
 	if s.immutable != nil {
 		// another writer may have created the schema and PrepareFlush moved it meanwhile, writers go on with that one
 		if stored, ok := s.immutable.Get(uint32(id)); ok {
-			schema = stored
+			s.mutable.Put(uint32(id), stored)
+			return stored, nil
+		}
+	}
+	if s.flushes != flushes {
+		// a flush completed after the schema was read, it may lack what went to the files since, read it again
+		var err error
+		if schema, err = s.getSchemaFromKV(id); err != nil {
+			return nil, err
 		}
 	}
 	if schema == nil {
@@ -130,13 +145,22 @@ func (s *metricSchemaStore) mutableSchema(id metric.ID, schema *metric.Schema) *
 		schema = &metric.Schema{}
 	}
 	s.mutable.Put(uint32(id), schema)
-	return schema
+	return schema, nil
+}
+
+// completedFlushes returns the number of completed flushes.
+func (s *metricSchemaStore) completedFlushes() int64 {
+	s.lock.RLock()
+	defer s.lock.RUnlock()
+
+	return s.flushes
 }
 
 // genTagKeyID generates tag key id if tag key not exist.
 func (s *metricSchemaStore) genTagKeyID(id metric.ID, tagKey []byte, limits *models.Limits,
 	createFn func() uint32,
 ) (tagKeyID tag.KeyID, err error) {
+	flushes := s.completedFlushes()
 	schema, err := s.GetSchema(id)
 	if err != nil {
 		return 0, err
@@ -146,7 +170,10 @@ func (s *metricSchemaStore) genTagKeyID(id metric.ID, tagKey []byte, limits *mod
 	defer s.lock.Unlock()
 
 	// the schema was read before the lock was taken, another writer may have put its one into mutable store meanwhile
-	schema = s.mutableSchema(id, schema)
+	schema, err = s.mutableSchema(id, schema, flushes)
+	if err != nil {
+		return 0, err
+	}
 
 	tm, ok := schema.TagKeys.Find(strutil.ByteSlice2String(tagKey))
 	if ok {
@@ -263,6 +290,7 @@ func (s *metricSchemaStore) Flush() error {
 		return nil
 	})
 	s.immutable = nil
+	s.flushes++
 	s.cache.Purge()
 	s.lock.Unlock()
 	return nil
